@@ -94,9 +94,12 @@ CHECKS = {
                      "configuration submitted twice (dry run) must get equal, distinct paths inside the job directory.",
                 note="Domain: plain file names and plain dict keys."),
     "C20": dict(category="model_checking", engine="E3", design="5 (C20), 3.5, 3.4",
-                technique="TLA+ XpmConfig: DeprecatedSame by TLC + class-swap pairs judged by TLC; fix_deprecated part added with the workspace engine",
+                technique="TLA+ XpmConfig: DeprecatedSame by TLC + class-swap pairs judged by TLC; TLA+ XpmDeprecated: all repair sequences by TLC, each replayed with the real fix_deprecated on real workspaces (absolute and relative paths)",
                 text="Identifier half: TLC checks that swapping a deprecated class for its replacement at any position leaves Enc unchanged; real "
-                     "graphs with K2Old/K2 swaps are validated. Repair half (fix_deprecated): see evidence key fix_deprecated.",
+                     "graphs with K2Old/K2 swaps are validated. Repair half: XpmDeprecated models fix_deprecated (link / move / dangling links / "
+                     "idempotence); every sequence of <= 3 repairs from every initial link state is replayed on workspaces filled before the "
+                     "deprecation (a deprecated task class and a deprecated inner configuration), data files and reachability under the new "
+                     "identifier are checked after every step, then the replacement is resubmitted.",
                 note="Frozen schema states that K2Old hashes with K2's type identifier; cross-checked against the live classes."),
     "C12": dict(category="model_checking", engine="E3+E2", design="5 (C12), 3.5",
                 technique="TLA+ XpmConfig DefsOrder: TLC invariants (each object once, children first) + definition lists of real graphs validated by TLC + round-trip isomorphism against the abstract graph + echo task runs",
@@ -113,6 +116,34 @@ CHECKS = {
                      "graph for instance() (also with a shared ObjectStore) and for parameter-file loading (post-init once after parameters, "
                      "pre-tasks once, init tasks once after the pre-tasks).",
                 note="The task body following the init tasks is checked through the echo runs of C12."),
+    "C15": dict(category="model_checking", engine="E3", design="5 (C15), 3.6",
+                technique="TLA+ XpmFunctions (types part): TLC enumerates type expressions x candidate values, checks StoredConforms / ConformingKept, and acts as reference evaluator for every assignment on real parameters (B3); submit-fails-fast scenarios",
+                text="Assign(v,t) (coercions and rejections) is transcribed in TLA+; TLC checks on 4653 (type, value) pairs (types to depth 3, values "
+                     "conforming or off by one constructor) that what is stored conforms and conforming values are kept; every pair is then "
+                     "assigned to a real Param of that type and the raise / stored value / read-back compared. Ten graphs with a required value "
+                     "missing at different depths (also below optional / ignored parameters, in pre-tasks) must be rejected by submit with no job registered.",
+                note="Optional is only supported at the top level of a parameter type; Union types are outside the property's constructor list. Known finding: None element accepted inside containers of configurations."),
+    "C16": dict(category="model_checking", engine="E3+E2", design="5 (C16), 3.4",
+                technique="TLA+ XpmWorkspace: TLC exhaustive (IndexExact, BackupKept, NoPlanJobOrphaned) + TLC-generated histories replayed on a real workspace with the real experiment context manager and CLI; two-process lock race",
+                text="Runs of experiments ending normally / by exception / by kill, interleaved with orphans and jobs clean, are explored by TLC "
+                     "(3 jobs, 2 experiments); random behaviours of depth 6 are replayed with the real experiment object (real scheduler thread, "
+                     "simulated instant job processes) and the symlink trees, backup directories and the output of `orphans` compared with the "
+                     "specification after every action; two real processes contend for the same experiment.",
+                note="Job processes are simulated; the kill of the experiment process is simulated by abandoning the experiment object without running __exit__."),
+    "C18": dict(category="model_checking", engine="E3", design="5 (C18), 3.6",
+                technique="TLA+ XpmFunctions (match part): TLC checks MatchSound over requests x hosts and is the reference evaluator for match(), the request algebra, the text grammar and operand purity (B3)",
+                text="Match / And / Mul / union order are transcribed in TLA+; TLC checks Match => Satisfies for 129 request expressions x 240 hosts "
+                     "(unsorted GPU lists, min_memory, min_gpu, max_duration) and prints the expected result of every pair; the implementation is "
+                     "evaluated on every pair, every combined request is compared with the specification's normal form, operands are "
+                     "snapshotted before/after & and *, and the printed text of each expression (random whitespace) is parsed and compared, twice.",
+                note="humanfriendly's decimal sizes are trusted; GPU pairing is position-wise as in the code (sound, not complete)."),
+    "C19": dict(category="model_checking", engine="E3", design="5 (C19), 3.6, 3.4",
+                technique="TLA+ XpmFunctions (filter part) as enumerated oracle for createFilter + TLA+ XpmWorkspace histories with jobs clean / orphans replayed through the real CLI",
+                text="Filter evaluation (=, in, not in, ~, and/or chains evaluated from the left) is transcribed; TLC enumerates 732 expressions x "
+                     "128 tag/state/name assignments and the compiled filters are compared on all of them; `jobs clean` (filter, --experiment, "
+                     "--perform, running jobs) and `orphans` (--clean, --ignore-old) are actions of XpmWorkspace whose generated histories are "
+                     "replayed on real workspaces through the click commands, the directory tree being compared after each.",
+                note="String-valued tags; parentheses are not accepted by the filter grammar entry point and are outside the domain."),
 }
 
 REASON_TODO = "check not built yet (build in progress, see DESIGN.md section 12)"
